@@ -275,7 +275,7 @@ func run(args []string) error {
 	}
 
 	depth := 4
-	maxExpand := 700
+	maxExpand := 1000
 	if f.Tier == "thorough" || f.Tier == "search" {
 		depth = 6
 		maxExpand = 1200000
